@@ -8,7 +8,7 @@ DIR=/verif/seeded/$ID
 [ -f "$DIR/patch.diff" ] || { echo "no such seeded change: $ID"; exit 2; }
 if [ -n "$(git -C /repo status --porcelain)" ]; then echo "/repo has uncommitted changes; refusing"; exit 2; fi
 CHECKS="$*"
-if [ -z "$CHECKS" ]; then CHECKS=$(python3 -c "import json;print(json.load(open('$DIR/meta.json'))['property'])"); fi
+if [ -z "$CHECKS" ]; then CHECKS=$(python3 -c "import json;m=json.load(open('$DIR/meta.json'));print(m.get('checks',m['property']))"); fi
 git -C /repo apply "$DIR/patch.diff" || { echo "patch does not apply"; exit 2; }
 for c in $CHECKS; do
     out=$(/verif/check "$c" --tier quick 2>&1); code=$?
